@@ -127,7 +127,7 @@ func gen(r *verifsim.Rng, tier string) (any, hx.Sched) {
 		w.ArrayPayload = r.Intn(3) == 0
 		w.Nested = r.Intn(4) == 0
 		if !w.ArrayPayload {
-			w.Payload = verifsim.Pick(r, []string{"", "", "int", "float", "loopint"})
+			w.Payload = verifsim.Pick(r, []string{"", "", "int", "float", "loopint", "numstr", "obj"})
 		}
 		// the interpreter passes thousands of yield points per operation:
 		// keep preemptions sparse outside the focus files
